@@ -86,15 +86,24 @@ def _ops_table() -> List[List[Any]]:
     t += [["replace-store"]]
     # the environment re-seeds / restores the process-wide ``random`` state right before an id is issued
     t += [["rng-create", "seed"], ["rng-create", "setstate"], ["rng-init", "seed"], ["rng-init", "setstate"]]
+    # the clock steps BACKWARDS (NTP correction, VM restore), and the application ages / rejuvenates a record through the
+    # public record object it looked up (rec = get_session(id); rec.last_activity = t)
+    t += [["adv", -5], ["adv", -100]]
+    t += [["age", 1, "older"], ["age", 0, "newer"]]
     return t
 
 
 OPS = _ops_table()
 
 
-def enabled(n_issued: int, n_issued_b: int = 0, replaced: bool = False) -> List[int]:
+def enabled(n_issued: int, n_issued_b: int = 0, replaced: bool = False, disturbed: bool = False) -> List[int]:
     out = []
     for code, op in enumerate(OPS):
+        if (op[0] == "adv" and op[1] < 0) or op[0] == "age":
+            # one disturbance of the time order (clock step back / assigned stamp) per history
+            if not disturbed and (op[0] == "adv" or op[1] < n_issued):
+                out.append(code)
+            continue
         if op[0] == "replace-store":
             if not replaced:
                 out.append(code)
@@ -132,6 +141,10 @@ def opname(op) -> str:
         return "initialize-with-session-id" + (":never-issued-id" if op[1] < 0 else ":issued-id")
     if op[0].startswith("b-"):
         return "handlerB:" + op[0][2:]
+    if op[0] == "age":
+        return f"assign-last_activity:{op[2]}"
+    if op[0] == "adv":
+        return "clock-steps-back" if op[1] < 0 else "adv"
     if op[0].startswith("rng-"):
         return f"random.{op[1]}-then-{'create_session' if op[0] == 'rng-create' else 'initialize'}"
     return op[0]
@@ -206,6 +219,7 @@ class Model:
         self.nb = 0
         self.b: Dict[int, List[Any]] = {}   # the second handler's own map
         self.replaced = False               # the first handler's store was replaced by a fresh one
+        self.disturbed = False              # the clock stepped back / a stamp was assigned by the application (once per history)
 
     def add(self, info, version):
         self.s[self.n] = [info, version, self.now, self.now]
@@ -214,7 +228,7 @@ class Model:
 
     def canon(self):
         return [self.n, [[i, r[0], r[1], self.now - r[2], self.now - r[3]] for i, r in sorted(self.s.items())],
-                self.nb, [[i, r[0], r[1], self.now - r[2], self.now - r[3]] for i, r in sorted(self.b.items())], self.replaced]
+                self.nb, [[i, r[0], r[1], self.now - r[2], self.now - r[3]] for i, r in sorted(self.b.items())], self.replaced, self.disturbed]
 
 
 def _h(x) -> str:
@@ -507,6 +521,19 @@ async def execute(codes: List[int], seams: Seams, factory, parse_message, count)
                 elif kind == "adv":
                     clock.now += op[1]
                     model.now += op[1]
+                    if op[1] < 0:
+                        model.disturbed = True
+                elif kind == "age":
+                    model.disturbed = True
+                    k = op[1]
+                    value = model.now - 100 if op[2] == "older" else model.now + 50
+                    rec = sm.get_session(ids[k])
+                    if (rec is None) != (k not in model.s):
+                        bad({"class": "wrong-return", "op": name, "detail": "lookup"},
+                            f"get_session(#{k}) returned {rec!r}, model {'absent' if k not in model.s else 'present'}")
+                    if rec is not None:
+                        rec.last_activity = value          # through the public record object, as applications (and the suite) do
+                        model.s[k][3] = value
                 elif kind in ("b-create", "b-init"):
                     if kind == "b-create":
                         sid = smb.create_session(dict(B_CLIENT), B_VERSION)
@@ -566,7 +593,7 @@ async def execute(codes: List[int], seams: Seams, factory, parse_message, count)
                   r.metadata, r.session_id == k] for k, r in sorted(lb.items(), key=lambda kv: ids_b.index(kv[0]))])
     real.append(len(ids_b))
     return {"viol": viol, "cut": None, "key": _h(model.canon()), "digest": _h(real), "n_issued": model.n,
-            "n_issued_b": model.nb, "live": len(model.s), "live_b": len(model.b), "replaced": model.replaced}
+            "n_issued_b": model.nb, "live": len(model.s), "live_b": len(model.b), "replaced": model.replaced, "disturbed": model.disturbed}
 
 
 def _factory():
@@ -604,9 +631,9 @@ def run_one(ctl: explorer.Ctl, cfg: Dict[str, Any]) -> Dict[str, Any]:
             return
         # (an empty history that is already in violation still has its one-step extensions executed: they are
         # executions like any other, and each reports what it sees)
-        ops = enabled(base.get("n_issued", 0), base.get("n_issued_b", 0), base.get("replaced", False))
+        ops = enabled(base.get("n_issued", 0), base.get("n_issued_b", 0), base.get("replaced", False), base.get("disturbed", False))
         if cfg.get("noB"):
-            ops = [o for o in ops if not OPS[o][0].startswith("b-")]
+            ops = [o for o in ops if o < CORE_N]
         if cfg.get("op") is not None:
             ops = [o for o in ops if o == cfg["op"]]
         for code in ops:
@@ -687,6 +714,9 @@ def _cfg(hb: bytes, no_b: bool) -> Dict[str, Any]:
 
 
 B_ISSUING = bytes(c for c, o in enumerate(OPS) if o[0] in ("b-create", "b-init"))
+# the operations on the first handler alone, without store replacement, rng actions and time-order disturbances: the extra
+# level of the thorough tier extends only histories made of these, by these
+CORE_N = next(c for c, o in enumerate(OPS) if o[0] == "b-create")
 
 
 def _wexpand(task):
@@ -738,7 +768,7 @@ def bfs(res: core.Result, depth: int, extra_without_b: int = 0) -> Dict[str, Any
             t0 = _time.time()
             no_b = d > depth
             if no_b:
-                frontier = [h for h in frontier if not any(c in B_ISSUING for c in h)]
+                frontier = [h for h in frontier if all(c < CORE_N for c in h)]
                 if not frontier:
                     break
             chunk = max(1, min(64, len(frontier) // (workers * 8) or 1))
@@ -812,6 +842,168 @@ def bfs(res: core.Result, depth: int, extra_without_b: int = 0) -> Dict[str, Any
             "self_loop_arrivals": self_loop_states}
 
 
+# ---------------------------------------------------------------------------
+# concurrent dispatches on one handler (E-SCHED): a handler that suspends and then raises / returns, overlapping with an
+# initialize, a ping, a deletion ... from another task; the map afterwards is what the COMPLETED operations make of it
+# ---------------------------------------------------------------------------
+RUN_CONC = "vf.checks.c19:run_concurrent"
+CONC_SLOWS = [["raises"], ["returns"], ["raises", "raises"], ["raises", "returns"], ["returns", "raises"]]
+CONC_OTHER = ["initialize", "two-initializes", "create_session-via-api", "ping-with-session-0", "delete-session-0",
+              "initialize-then-delete-that-session"]
+
+
+def run_concurrent(ctl: explorer.Ctl, cfg: Dict[str, Any]) -> Dict[str, Any]:
+    import asyncio
+
+    from chuk_mcp.protocol.messages.json_rpc_message import parse_message
+
+    from .. import seams as _seams
+
+    slows = CONC_SLOWS[cfg["slows"]]
+    other = CONC_OTHER[cfg["other"]]
+    carry = cfg["carry"]          # the slow dispatches carry session 0's id or none
+    factory = _factory()
+    viol: List[dict] = []
+    order: List[str] = []
+    info: Dict[str, Any] = {}
+
+    with Seams() as sm_seams:
+        sm_seams.reset()
+        loop = new_loop(horizon=5)
+        q = _seams.Quiescence(loop)
+        handler = factory()
+        sm = handler.session_manager
+        gates: List[Any] = []
+        results: Dict[int, Any] = {}
+        model: Dict[str, Any] = {}        # session id -> (client name, version)
+
+        async def slow(message, session_id):
+            i = message.params["i"]
+            await gates[i]
+            if slows[i] == "raises":
+                raise RuntimeError(f"slow handler {i} failed")
+            return handler.create_response(message.id, {"slow": i}), None
+
+        handler.register_method("slow/op", slow)
+        s0 = sm.create_session({"name": "client-0"}, "2025-06-18")
+        model[s0] = ("client-0", "2025-06-18")
+        n_init = {"n": 0}
+
+        async def initialize():
+            n_init["n"] += 1
+            name = f"client-init-{n_init['n']}"
+            wire = {"jsonrpc": "2.0", "id": 50 + n_init["n"], "method": "initialize",
+                    "params": {"protocolVersion": "2025-03-26", "capabilities": {}, "clientInfo": {"name": name}}}
+            ret = await handler.handle_message(parse_message(wire), None)
+            d = ret[0].model_dump(exclude_none=True) if isinstance(ret, tuple) and ret[0] is not None else None
+            if d is None or classify(d)[0] != "result" or not isinstance(ret[1], str):
+                viol.append({"sig": {"class": "wrong-return", "op": "initialize"}, "msg": f"initialize returned {ret!r}"})
+                return None
+            model[ret[1]] = (name, d["result"].get("protocolVersion"))
+            return ret[1]
+
+        async def do_other():
+            if other == "initialize":
+                await initialize()
+            elif other == "two-initializes":
+                await initialize()
+                await initialize()
+            elif other == "create_session-via-api":
+                sid = sm.create_session({"name": "client-api"}, "2024-11-05")
+                model[sid] = ("client-api", "2024-11-05")
+            elif other == "ping-with-session-0":
+                await handler.handle_message(parse_message({"jsonrpc": "2.0", "id": 60, "method": "ping"}), s0)
+            elif other == "delete-session-0":
+                sm.delete_session(s0)
+                model.pop(s0, None)
+            else:
+                sid = await initialize()
+                if sid:
+                    sm.delete_session(sid)
+                    model.pop(sid, None)
+
+        async def one_slow(i):
+            wire = {"jsonrpc": "2.0", "id": 10 + i, "method": "slow/op", "params": {"i": i}}
+            try:
+                results[i] = ("returned", await handler.handle_message(parse_message(wire), s0 if carry else None))
+            except Exception as e:  # noqa: BLE001
+                results[i] = ("raised", e)
+
+        async def main():
+            k = len(slows)
+            for _ in range(k):
+                gates.append(loop.create_future())
+            started, released, tasks, did_other = [False] * k, [False] * k, [], False
+            while True:
+                menu = [("start", i) for i in range(k) if not started[i]] + \
+                       [("release", i) for i in range(k) if started[i] and not released[i]] + \
+                       ([] if did_other else [("other", 0)])
+                if not menu:
+                    break
+                act, i = menu[ctl.choose(len(menu), "action")] if len(menu) > 1 else menu[0]
+                order.append(act + (str(i) if act != "other" else ""))
+                if act == "start":
+                    started[i] = True
+                    tasks.append(asyncio.ensure_future(one_slow(i)))
+                elif act == "release":
+                    released[i] = True
+                    gates[i].set_result(None)
+                else:
+                    did_other = True
+                    info["suspended_during_other"] = [j for j in range(k) if started[j] and not released[j]]
+                    await do_other()
+                await q.settle()
+            await asyncio.gather(*tasks)
+
+        status, val = loop.run_main(main())
+        errors = loop.collect_errors()
+        loop.abandon()
+        if status != "ok":
+            raise core.HarnessError(f"concurrent {cfg} did not complete: {status} {val!r}")
+        susp = info.get("suspended_during_other", [])
+        ctx = {"other_operation": other,
+               "ran_while_suspended": "+".join(sorted({slows[j] for j in susp})) or "nothing-suspended",
+               "slow_dispatch_carries_a_session_id": bool(carry)}
+
+        def bad(cls, msg, **extra):
+            viol.append({"sig": {"class": cls, **ctx, **extra},
+                         "msg": f"slow handlers {slows}, other operation '{other}', order {order}: {msg}"})
+
+        # the slow dispatches themselves
+        for i, beh in enumerate(slows):
+            how, ret = results[i]
+            if how == "raised":
+                bad("dispatch-raised", f"slow dispatch {i} raised {type(ret).__name__}: {ret}")
+                continue
+            d = ret[0].model_dump(exclude_none=True) if isinstance(ret, tuple) and ret[0] is not None else None
+            want = "error" if beh == "raises" else "result"
+            if d is None or classify(d)[0] != want or not strict_eq(d.get("id"), 10 + i):
+                bad("wrong-return", f"slow dispatch {i} ({beh}) answered {d!r}", op="slow")
+        # the store is what the completed operations make of it
+        listing = sm.list_sessions()
+        lost = [model[k][0] for k in model if k not in listing]
+        extra = [k for k in listing if k not in model]
+        if lost:
+            bad("session-of-a-completed-operation-lost", f"sessions of {lost} are gone; store has "
+                                                         f"{[r.client_info for r in listing.values()]}", lost=len(lost))
+        if extra:
+            bad("session-nobody-created", f"{len(extra)} unexpected sessions {[listing[k].client_info for k in extra]}")
+        for k, (name, ver) in model.items():
+            r = listing.get(k)
+            if r is not None and (not isinstance(r.client_info, dict) or r.client_info.get("name") != name
+                                  or r.protocol_version != ver or sm.get_session(k) is None):
+                bad("record-differs", f"session of {name}: {r.client_info!r} {r.protocol_version!r}, expected version {ver!r}")
+        if sm.get_session_count() != len(listing):
+            bad("count-differs-from-listing", f"{sm.get_session_count()} vs {len(listing)}")
+        if errors:
+            bad("loop-error", f"{errors[:2]}")
+    return {"outcome": f"live{len(listing)}:{ctx['ran_while_suspended']}", "order": order, "violations": viol}
+
+
+def concurrent_configs() -> List[Dict[str, Any]]:
+    return [{"slows": a, "other": b, "carry": c} for a in range(len(CONC_SLOWS)) for b in range(len(CONC_OTHER)) for c in (0, 1)]
+
+
 def run(tier: str, only=None) -> core.Result:
     res = core.Result("C19", "model_checking")
     depth = 5 if tier == "quick" else 6
@@ -822,6 +1014,9 @@ def run(tier: str, only=None) -> core.Result:
             pass
     extra = 0 if tier == "quick" else 1
     r = bfs(res, depth, extra)
+    ccfgs = concurrent_configs()
+    outc = explorer.explore(RUN_CONC, ccfgs)
+    sched.absorb(res, "concurrent-dispatches", RUN_CONC, outc, ccfgs)
     outcomes = set()
     for p in res.parts.values():
         outcomes |= set(p["outcomes"])
@@ -842,6 +1037,7 @@ def run(tier: str, only=None) -> core.Result:
     cov["all_histories_reaching_a_shared_state_agree"] = r["disagreements"] == 0 and not res.violations
     cov["unexpanded_states_at_max_depth"] = r["last_frontier"]
     cov["operations"] = len(OPS)
+    cov["concurrent_dispatch_executions"] = res.parts.get("concurrent-dispatches", {}).get("executions", 0)
     # which expiry boundary relations were exercised (cleanup as the last operation of an execution), per max_age
     exp: Dict[str, int] = {}
     for p in res.parts.values():
@@ -866,14 +1062,19 @@ def run(tier: str, only=None) -> core.Result:
         "list_sessions + mutate the returned dict (add | delete | clear), clear_all_sessions, advance the (fractional) clock "
         "by 0.5 | 9.5 | 3599.5 from a start at x.25, "
         "replace the handler's store by a fresh one (once), create / initialize right after random.seed(42) or after "
-        "random.setstate(state at the start)}}; and on a SECOND ProtocolHandler alive next to the first {{create, initialize, delete, clear}} whose store must stay its own "
+        "random.setstate(state at the start), the clock stepping back by 5 / 100 s, assigning an older (now-100) / newer (now+50) "
+        "last_activity to the record object looked up for session #1 / #0 (one such disturbance of the time order per history)}}; and on a SECOND ProtocolHandler alive next to the first {{create, initialize, delete, clear}} whose store must stay its own "
         f"(both public views are compared with two independent model maps); at most {MAX_IDS} + {MAX_IDS_B} ids issued per history; "
-        + (f"one more level (length {depth + extra}) extends the histories that never issued an id on the second handler with the "
-           "first handler's operations only; " if extra else "") +
+        + (f"one more level (length {depth + extra}) extends the histories made only of the first handler's plain operations (no second handler, store "
+           "replacement, random re-seeding, clock step back or assigned stamp) by those operations; " if extra else "") +
         "every execution first checks that handlers built after a throw-away handler already holds a session start EMPTY; every history+op is one fresh execution on the real ProtocolHandler/"
         "SessionManager compared step by step with a dict model; state = (ids issued, sorted (issue index, client info, "
         "version, age since creation, idle time)); a state is extended once, by the first history (BFS order) that reaches it; "
-        "distinct_nontrivial = distinct canonical states"
+        "distinct_nontrivial = distinct canonical states.  Concurrent part (choice-point exploration on the virtual loop): one or two "
+        "dispatches of a registered handler that suspends and then raises or returns (with / without a session id), and one other "
+        "operation (initialize, two initializes, create_session, ping with a session id, delete_session, initialize then delete) placed "
+        "at every point of every interleaving of {start i, release i}: afterwards the store holds exactly the sessions of the "
+        "completed operations"
     )
     res.assumptions = [
         "two ProtocolHandler objects built with the same arguments are independent servers: a session created through one is "
@@ -890,6 +1091,9 @@ def run(tier: str, only=None) -> core.Result:
         "an initialize carrying a session id must still create exactly one NEW session and leave the carried one's record alone",
         "which protocolVersion initialize answers is C04's subject: the model records the answered version",
         "an initialize answered with an error ends the history unjudged (does not occur on this tree unless counted)",
-        "mutating the *records* inside a listing is not covered (the statement speaks of adding/removing entries)",
+        "mutating the *records* inside a listing is not covered (the statement speaks of adding/removing entries); assigning "
+        "last_activity on the record returned by get_session changes the stored session (the built-in store hands out its records; "
+        "the repository's own suite ages sessions this way)",
+        "the clock may step backwards: expiry is still judged on now - last_activity at the time of cleanup",
     ]
     return res
